@@ -169,7 +169,7 @@ def _construct():
 def _construct_helper():
     def gen(w, rng):
         spec = V.gen_array_spec(rng, w.cfg, dtype="f8")
-        return {"which": rng.choice(["zeros", "ones", "nans", "empty", "zeros_like", "ones_like", "array"]),
+        return {"which": rng.choice(["zeros", "ones", "nans", "empty", "zeros_like", "ones_like", "array", "zeros_shape", "ones_shape"]),
                 "spec": spec, "out": out(w)}
 
     def run(w, s):
@@ -187,6 +187,11 @@ def _construct_helper():
         elif which == "empty":
             a = da.empty(axes=pairs); exp = "any"
             a.values[...] = 0.0  # uninitialised memory would make the run non-replayable
+        elif which in ("zeros_shape", "ones_shape"):
+            shape = tuple(len(l) for l in spec["labels"])
+            a = (da.zeros if which == "zeros_shape" else da.ones)(dims=tuple(spec["dims"]), shape=shape)
+            exp = 0.0 if which == "zeros_shape" else 1.0
+            ref = V.build_array(dict(spec, labels=[list(range(n)) for n in shape], axattrs=[]), 0)
         elif which == "zeros_like":
             a = da.zeros_like(ref); exp = 0.0
         elif which == "ones_like":
@@ -309,12 +314,17 @@ def _ix():
         a_id = pick_arr(w, rng)
         a = w.arr(a_id)
         idx, _ = _gen_index_tuple(w, rng, a, True)
-        return {"a": a_id, "idx": idx, "out": out(w), "via": rng.choice(["ix", "iloc", "take"])}
+        st = {"a": a_id, "idx": idx, "out": out(w), "via": rng.choice(["ix", "iloc", "take", "take_broadcast"])}
+        if st["via"] == "take_broadcast":
+            st["no_axis_keep"] = True     # numpy-like fancy indexing merges the indexed axes into a new one
+        return st
 
     def run(w, s):
         a = w.arr(s["a"])
         idx = tuple(dec_index(e) for e in s["idx"])
         via = s.get("via")
+        if via == "take_broadcast":
+            return a.take(idx, indexing="position", broadcast=True)
         if via == "ix":
             return a.ix[idx]
         if via == "iloc":
